@@ -71,14 +71,32 @@ func runGated(c gatedCase) error {
 	if c.OneP {
 		defer runtime.GOMAXPROCS(runtime.GOMAXPROCS(1))
 	}
-	if err := runGatedScenario(c); err != nil {
-		return err
-	}
-	if err := poolProbe(); err != nil {
-		return fmt.Errorf("after scenario %q: %w", c.Name, err)
-	}
+	return guardDeadlock(90*time.Second, fmt.Sprintf("gated scenario %q", c.Name), func() error {
+		if err := runGatedScenario(c); err != nil {
+			return err
+		}
+		if err := poolProbe(); err != nil {
+			return fmt.Errorf("after scenario %q: %w", c.Name, err)
+		}
 
-	return nil
+		return nil
+	})
+}
+
+// guardDeadlock runs f in its own goroutine; if it does not return in time (some call into the client
+// never came back) the verdict is a deadlock with every goroutine's stack, instead of a hung check.
+func guardDeadlock(d time.Duration, what string, f func() error) error {
+	done := make(chan error, 1)
+	go func() { done <- f() }()
+	select {
+	case err := <-done:
+		return err
+	case <-time.After(d):
+		buf := make([]byte, 1<<18)
+		n := runtime.Stack(buf, true)
+
+		return fmt.Errorf("deadlock: %s did not finish within %v (a call into the client never returned)\n%s", what, d, buf[:n])
+	}
 }
 
 // poolProbe starts a few transactions on a new client and answers them in reverse order: every
@@ -161,6 +179,32 @@ func runGatedScenario(c gatedCase) error {
 		}
 
 		return exactly(&h0, 0, fmt.Sprintf("Start returned %v", serr))
+	case "response-then-close-inside-start-before-agent-registration":
+		// three parties: Start has registered the transaction in the client table; the response is
+		// processed (the handler runs); Close runs to completion; only then Start asks the agent, which
+		// is closed by now. The handler has the outcome, so Start must not report an error on top.
+		var closeErr error
+		once := false
+		delivered := true
+		w.Agent.Before = func(op string, _ [12]byte) {
+			if op == "start" && !once {
+				once = true
+				delivered = w.Conn.Deliver(response(0, 1, 0))
+				closeErr = closeWorld(w, c.NoConnClose)
+			}
+		}
+		serr := start(0, &h0)
+		if !delivered {
+			return fmt.Errorf("reader did not process the response while Start was parked before the agent registration")
+		}
+		if closeErr != nil {
+			return fmt.Errorf("Close inside Start returned %v", closeErr)
+		}
+		if serr != nil {
+			return exactly(&h0, 0, fmt.Sprintf("Start returned %v (response processed and client closed between the two registrations)", serr))
+		}
+
+		return exactly(&h0, 1, "Start returned nil (response processed and client closed between the two registrations)")
 	case "close-between-registration-and-first-write":
 		var closeErr error
 		once := false
@@ -365,7 +409,7 @@ func runGatedScenario(c gatedCase) error {
 }
 
 var gatedNames = []string{
-	"close-inside-start-before-agent-registration", "close-between-registration-and-first-write",
+	"close-inside-start-before-agent-registration", "response-then-close-inside-start-before-agent-registration", "close-between-registration-and-first-write",
 	"response-while-retransmission-write-parked", "failing-retransmission-write-racing-response",
 	"two-closes-second-during-agent-close", "do-response-processed-before-wait", "write-error-in-start-while-closing",
 	"do-returns-only-after-callback-finished", "do-returns-only-after-callback-finished-early-response",
